@@ -1452,3 +1452,53 @@ class EatDataComplete(EatData):
 
 
 CONTRACTS.append(EatDataComplete())
+
+
+# ------------------------------------------------------------------------------------------- BodyMarkuper.__init__
+class MarkuperInit(Contract):
+    """establishes what the delimiter search relies on: token == CR LF '-' '-' boundary, tlen == len(token), and the boundary
+    contains no CR (otherwise InvalidBoundaryError and no object) - so the token's first byte, CR, occurs nowhere else in it,
+    which is the uniqueness assumption of _eat_data / match_tail; no expectation is pending, the position is 0, the first eater
+    is _eat_start_boundary."""
+    props = ('C06',)
+    file = 'ombott/request_pkg/multipart.py'
+    qualname = 'BodyMarkuper.__init__'
+    assumptions = ('MatchTail(token) and HeadersEaeter() are constructors with their own contracts (MatchTail.__init__ proved above)',)
+    expected_labels = ('init.token_is_crlf_dashes_boundary', 'init.first_byte_of_the_token_does_not_recur', 'init.clean_initial_state',
+                       'raise.only_for_a_boundary_with_cr')
+
+    def pre(self, X):
+        g = X.globals
+        self.Invalid = g['InvalidBoundaryError']
+        self.b = X.fresh(BytesSort, 'boundary')
+        self.mt_arg = None
+        c = self
+
+        def match_tail_cls(X, args, kwargs):
+            c.mt_arg = args[0] if args else None
+            return VObj('MatchTailObj', {})
+        self.stubs = {'MatchTail': match_tail_cls, 'HeadersEaeter': lambda X, a, k: VObj('HeadersEaeterObj', {'eat': VFunc(None, 'eat')})}
+        self.me = VObj('BM', {'_eat_start_boundary': VFunc(None, '_eat_start_boundary')})
+        return {'self': self.me, 'boundary': VBytes(self.b)}
+
+    def post(self, X, ret):
+        f = self.me.fields
+        tok = f.get('token')
+        want = z3.Concat(CRLF, HYHY, self.b)
+        ok = isinstance(tok, VBytes) and isinstance(f.get('tlen'), VInt) and isinstance(f.get('boundary'), VBytes)
+        X.prove('init.token_is_crlf_dashes_boundary',
+                z3.And(tok.t == want, f['tlen'].t == L(want), f['boundary'].t == z3.Concat(HYHY, self.b),
+                       z3.BoolVal(self.mt_arg is tok)) if ok else z3.BoolVal(False))
+        # CR occurs only at index 0 of the token: the boundary is CR-free on this (non-raising) path
+        X.prove('init.first_byte_of_the_token_does_not_recur', z3.Not(z3.Contains(self.b, CR)))
+        clean = (isinstance(f.get('trest'), VNone) and isinstance(f.get('trest_len'), VNone) and isinstance(f.get('abspos'), VInt)
+                 and isinstance(f.get('abs_start_section'), VInt) and isinstance(f.get('stopped'), VBool)
+                 and f.get('cur_meth') is f.get('_eat_start_boundary'))
+        X.prove('init.clean_initial_state',
+                z3.And(f['abspos'].t == 0, f['abs_start_section'].t == 0, z3.Not(f['stopped'].t)) if clean else z3.BoolVal(False))
+
+    def post_raise(self, X, exc):
+        X.prove('raise.only_for_a_boundary_with_cr', z3.And(z3.BoolVal(exc.pyclass is self.Invalid), z3.Contains(self.b, CR)))
+
+
+CONTRACTS.append(MarkuperInit())
